@@ -182,7 +182,7 @@ def main():
         if path not in prog.sources or not props:
             continue
         for q, line, op, pos, rep, desc in mutants_of(path, prog.sources[path]):
-            if a.only_func and a.only_func not in q:
+            if a.only_func and not any(x == q.split(".")[-1] or x == q for x in a.only_func.split(",")):
                 continue
             tasks.append((path, q, line, op, pos, rep, desc, props))
     if a.limit:
